@@ -320,18 +320,54 @@ class PassCounter:
         return wrapped(wcm._WorkflowCoordinator, 'execute', mk)
 
 
+SINKS = {}       # module-level registry: Extensions are pickled per task, so they carry only a key into this dict
+
+
 def candidates_extension(passcounter, sink):
     """Extension for MultipleAlignmentResultRowsMessage: appends (pass, query map, [messages]) to sink."""
-    from src.extensions.extension import Extension
     from src.extensions.messages import MultipleAlignmentResultRowsMessage
+    key = 'cands-%d' % id(sink)
+    SINKS[key] = (sink, passcounter)
+    return _make_ext(MultipleAlignmentResultRowsMessage, key, 'cands')
 
-    class Cands(Extension):
-        messageType = MultipleAlignmentResultRowsMessage
 
-        def handle(self, m):
-            try:
-                msgs = list(m.messages)
-                sink.append((passcounter.n, msgs[0].query if msgs else None, msgs))
-            except Exception as ex:
-                MONITOR_ERRORS.append('cands ' + repr(ex))
-    return Cands()
+def _handle(key, kind, m):
+    try:
+        sink, pc = SINKS[key]
+        if kind == 'cands':
+            msgs = list(m.messages)
+            sink.append((pc.n, msgs[0].query if msgs else None, msgs))
+        elif kind == 'init':
+            d = m.data
+            sink.append((pc.n, d.query, d.reference.moleculeId, bool(d.reverseStrand), [(p.score, p.position) for p in d.peaks]))
+    except Exception as ex:
+        MONITOR_ERRORS.append('bus monitor ' + repr(ex))
+
+
+_EXT_CLASSES = {}
+
+
+def _make_ext(message_type, key, kind):
+    """Instance of an Extension subclass defined at module level (picklable by reference), carrying only strings."""
+    from src.extensions.extension import Extension
+    cls = _EXT_CLASSES.get(message_type.__name__)
+    if cls is None:
+        cls = type('VfExt' + message_type.__name__, (_VfExtBase, Extension), {'messageType': message_type})
+        cls.__module__ = __name__
+        globals()[cls.__name__] = cls
+        _EXT_CLASSES[message_type.__name__] = cls
+    e = cls()
+    e.key, e.kind = key, kind
+    return e
+
+
+class _VfExtBase:
+    def handle(self, m):
+        _handle(self.key, self.kind, m)
+
+
+def initial_extension(passcounter, sink):
+    from src.extensions.messages import InitialAlignmentMessage
+    key = 'init-%d' % id(sink)
+    SINKS[key] = (sink, passcounter)
+    return _make_ext(InitialAlignmentMessage, key, 'init')
